@@ -377,6 +377,17 @@ def desc_error(m, adj, kd, key, role, d, strict=True):
                 {atoms[2], atoms[3]} & set(ends[0] + ends[1]):
             return f"descriptor atoms repeated: {d}"
     A = adj[_ST_OF[role]]
+    if role is None and m.is_reaction:
+        # a static descriptor describes stereo that is the same in reactant,
+        # product and TS: the centre / bond atoms have unchanged bonds only
+        cen = [atoms[0]] if cls in sym.ATOM_CLASSES else [atoms[2], atoms[3]]
+        for c in cen:
+            if c is None or c not in m.atoms:
+                return f"bad centre {d}"
+            for x in adj["ts"][c]:
+                if "reaction" in m.bonds[frozenset((c, x))]:
+                    return (f"static descriptor {d} on atom {c} that has a "
+                            f"changing bond")
     if cls in sym.ATOM_CLASSES:
         c = atoms[0]
         if c is None or kd != "atom" or key != c:
